@@ -37,7 +37,7 @@ def cases(tier, seed):
     for fr in pick_frames(FRAMES, tier, seed):
         for k in ks:
             for sub in itertools.combinations(range(16), k):
-                for form in ("array2d", "array1d", "grid", "int", "int_e", "F"):
+                for form in ("array2d", "array1d", "grid", "int", "int_e", "F", "proj_array", "proj_grid"):
                     if form != "array2d" and (sum(sub) % 4 != 0):
                         continue
                     if form in ("int", "int_e") and fr[0] * 0.5 != int(fr[0] * 0.5) and fr != [1.0, 0.0] and fr != [1.0, 1e7]:
@@ -47,7 +47,7 @@ def cases(tier, seed):
     for nn in (2, 3, 4, 5):
         for ne in (2, 3, 4, 5):
             for hole in ("none", "cell", "block", "corner"):
-                for proj in ("affine", "nonlinear"):
+                for proj in ("affine", "nonlinear", "rot"):
                     for method in ("linear", "nearest", "cubic"):
                         for anti in (False, True):
                             for req in ("default", "spacing", "region"):
@@ -104,6 +104,9 @@ def where(h, q, band=0):
 
 
 def _projection(name):
+    if name == "rot":
+        # mixes easting and northing: the box of the projected valid nodes is not the projected box of the valid nodes (seed C16-r3_2)
+        return lambda e, n: (np.asarray(e) + 2 * np.asarray(n), 2 * np.asarray(e) - np.asarray(n) + 3)
     if name == "affine":
         return lambda e, n: (2 * np.asarray(e) + 10, 3 * np.asarray(n) - 5)
     return lambda e, n: (np.asarray(e) + 0.0, np.asarray(n) + 10 * (np.asarray(n) / 10) ** 3)
@@ -145,10 +148,15 @@ def run(case, rec):
                 dn = dn.astype(np.int64)
         if form == "F":
             qe, qn = np.asfortranarray(qe), np.asfortranarray(qn)
-        if form == "grid":
+        pkw = {}
+        if form in ("proj_array", "proj_grid"):
+            # the projection is applied to BOTH the data and the query points / grid nodes (a rotation plus scaling keeps hull
+            # membership of every lattice point): seed C16-r3_1
+            pkw["projection"] = lambda a, b: (2 * (np.asarray(a) + np.asarray(b)) + 7, 3 * (np.asarray(a) - np.asarray(b)) - 1)
+        if form in ("grid", "proj_grid"):
             vals = np.arange(121.0).reshape(11, 11) + 1.0
             grid = xr.Dataset({"v": (("northing", "easting"), vals)}, coords={"easting": qe[0, :], "northing": qn[:, 0]})
-            got = call(rec, vd.convexhull_mask, (de, dn), grid=grid)
+            got = call(rec, vd.convexhull_mask, (de, dn), grid=grid, **pkw)
             if raised(got):
                 return rec.check(False, "convexhull_mask(grid) raised %r" % (got,))
             gv = np.asarray(got["v"].values)
@@ -157,12 +165,12 @@ def run(case, rec):
         else:
             a, b = (qe.ravel(), qn.ravel()) if form == "array1d" else (qe, qn)
             before = (de.tobytes(), dn.tobytes(), a.tobytes(), b.tobytes())
-            got = call(rec, vd.convexhull_mask, (de, dn), coordinates=(a, b))
+            got = call(rec, vd.convexhull_mask, (de, dn), coordinates=(a, b), **pkw)
             if raised(got):
                 return rec.check(False, "convexhull_mask raised %r" % (got,))
             # the caller's arrays are untouched, so a second call with the very same arrays gives the same mask (seed C16-1)
             rec.check((de.tobytes(), dn.tobytes(), a.tobytes(), b.tobytes()) == before, "convexhull_mask modified the arrays it was given")
-            again = call(rec, vd.convexhull_mask, (de, dn), coordinates=(a, b))
+            again = call(rec, vd.convexhull_mask, (de, dn), coordinates=(a, b), **pkw)
             rec.check(not raised(again) and np.array_equal(np.asarray(again), np.asarray(got)), "a second call with the same arrays gives a different mask")
             mask = np.asarray(got)
             rec.check(mask.dtype == bool and mask.shape == a.shape, "mask must be boolean in the query shape")
